@@ -81,6 +81,13 @@ MUTANTS = [
     ("C17", TM + "_tree.py", "                    for nnd in child_nodes[1:]:", "                    for nnd in child_nodes[2:]:", "calc_node_ages: second child not compared"),
     ("C17", TM + "_tree.py", "                        age_to_set = first_child.age + first_child.edge.length\n                    elif first_child.edge.length is None:",
      "                        age_to_set = first_child.age - first_child.edge.length\n                    elif first_child.edge.length is None:", "calc_node_ages: length subtracted"),
+    ("C19", "dendropy/datamodel/charmatrixmodel.py", "            if taxon not in self._taxon_sequence_map:\n                self._taxon_sequence_map[taxon] = self.__class__.character_sequence_type(other_matrix._taxon_sequence_map[taxon])\n\n    def replace_sequences",
+     "            self._taxon_sequence_map[taxon] = self.__class__.character_sequence_type(other_matrix._taxon_sequence_map[taxon])\n\n    def replace_sequences",
+     "add_sequences: existing rows overwritten"),
+    ("C19", "dendropy/datamodel/charmatrixmodel.py", "            else:\n                self._taxon_sequence_map[taxon]= self.__class__.character_sequence_type(other_matrix._taxon_sequence_map[taxon])",
+     "            else:\n                self._taxon_sequence_map[taxon]= other_matrix._taxon_sequence_map[taxon]", "extend_matrix: new rows alias the argument's sequence objects"),
+    ("C19", "dendropy/datamodel/charmatrixmodel.py", "                if not is_add_new_sequences:\n                    continue", "                if is_add_new_sequences:\n                    continue",
+     "extend_sequences: flag inverted"),
     ("C19", "dendropy/datamodel/charmatrixmodel.py", "            self.append(None)\n            to_add -= 1", "            self.append(None)", "set_at: loop counter not decremented"),
     ("C20", "dendropy/dataio/nexusreader.py",
      "            else:\n                token = self._nexus_tokenizer.require_next_token_ucase()\n\n    def _parse_dimensions_statement",
